@@ -41,7 +41,7 @@ REPO = os.environ.get("VERIF_REPO", "/repo")
 VERIF = os.path.dirname(os.path.dirname(os.path.abspath(__file__)))
 CACHE = os.environ.get("VERIF_CACHE", os.path.join(VERIF, ".cache"))
 STUBS = os.path.join(VERIF, "stubs")
-FRONTEND_VERSION = "cxx-20"
+FRONTEND_VERSION = "cxx-21"
 
 CLANG = "clang++"
 
@@ -618,7 +618,7 @@ class Lower:
                 return ("cast", "cstyle", "I", self.expr(inner[0]))
             if k == "ImplicitCastExpr" and n.get("castKind") == "IntegralCast" and inner:
                 wt, wf = int_width(n.get("type")), int_width(inner[0].get("type"))
-                if wt and wf and wt < wf and inner[0].get("kind") not in ("IntegerLiteral", "CharacterLiteral", "CXXBoolLiteralExpr", "UnaryOperator") and not _is_const_expr(inner[0]):
+                if wt and wf and wt < wf and not n.get("isPartOfExplicitCast") and inner[0].get("kind") not in ("IntegerLiteral", "CharacterLiteral", "CXXBoolLiteralExpr", "UnaryOperator") and not _is_const_expr(inner[0]):
                     return ("narrow", "%d<-%d" % (wt, wf), clean_type(_qt(n)), self.expr(inner[0]))
                 # arithmetic carried out in 32 bits (or less) and only then widened to 64: the sum/product has already wrapped
                 core = inner[0]
